@@ -298,6 +298,20 @@ def mk_op(op):
             extension=op["ext"],
             args=[mk_arg(a) for a in op.get("args", [])],
         )
+    if k == "ExtOp":
+        import hugr.ext as hext
+        from semver import Version
+
+        e = hext.Extension(op["ext"], Version(0, 1, 0))
+        sig = tys.FunctionType(mk_row(op["i"]), mk_row(op["o"]), list(op.get("reqs", [])))
+        targs = [mk_arg(a) for a in op.get("args", [])]
+        if op["via"] == "mono":
+            d = e.add_op_def(hext.OpDef(op["name"], hext.OpDefSig(sig), op.get("desc", "")))
+            return d.instantiate(targs) if op.get("inst") else ops.ExtOp(d, None, targs)
+        d = e.add_op_def(hext.OpDef(op["name"], hext.OpDefSig(None, binary=True), op.get("desc", "")))
+        if op["via"] == "instantiate":
+            return d.instantiate(targs, sig)
+        return ops.ExtOp(d, sig, targs)
     if k == "MakeTuple":
         return ops.MakeTuple(mk_row(op["ts"]))
     if k == "UnpackTuple":
